@@ -11,6 +11,7 @@ pub mod c06;
 pub mod c06_sys;
 pub mod c07;
 pub mod c08;
+pub mod c09;
 pub mod c10;
 pub mod c11;
 pub mod c11_sys;
@@ -36,6 +37,7 @@ pub fn registry() -> Vec<Property> {
         Property { id: "C06", run: c06::run, subs: c06::subs },
         Property { id: "C07", run: c07::run, subs: c07::subs },
         Property { id: "C08", run: c08::run, subs: c08::subs },
+        Property { id: "C09", run: c09::run, subs: c09::subs },
         Property { id: "C10", run: c10::run, subs: c10::subs },
         Property { id: "C11", run: c11::run, subs: c11::subs },
         Property { id: "C12", run: c12::run, subs: c12::subs },
